@@ -1440,7 +1440,11 @@ func (r *runningStep) closedEarly(stageToMarkUnresolvable StageID, priorStageFai
 	} else {
 		r.transitionRunningStage(StageIDClosed)
 	}
-	closedOutput := any(map[any]any{"cancelled": r.cancelled, "close_requested": r.closed.Load()})
+	// The stop condition may be delivered (under the lock) while the step is being closed for another reason.
+	r.lock.Lock()
+	cancelled := r.cancelled
+	r.lock.Unlock()
+	closedOutput := any(map[any]any{"cancelled": cancelled, "close_requested": r.closed.Load()})
 
 	r.completeStep(
 		StageIDClosed,
